@@ -305,8 +305,8 @@ func c08r4(c *Ctx, id string) {
 func c08r5(c *Ctx, id string) {
 	w := c.W
 	oi := observerInfo(c, id)
-	fn := w.Method("couchbase", oi.typ.Obj().Name(), "needCatchup")
-	c.need(fn != nil, id, "observer.needCatchup")
+	fn := oi.need
+	c.need(fn != nil, id, "the catch-up filter: the (uint64) bool observer method the gate consults directly (needCatchup)")
 	recv, p := fn.Params[0].Name(), fn.Params[1].Name()
 	F, need := recv+".catchupSeqNo", recv+".isCatchupNeed"
 	h := &Harness{Fn: fn, Groups: []Group{{Atoms: []string{p, F}, Unsigned: true}}, Bools: []string{need}, Quiet: quietLog}
@@ -351,7 +351,7 @@ func c08r5(c *Ctx, id string) {
 		return ""
 	}, "catchupSeqNo ← parameter; isCatchupNeed ← true")
 	// control events never consult (and so never consume) the filter; data events consult it exactly once
-	gateOAE(c, id, oi)
+	gateOAE(c, id, oi, "filter")
 	gateArgsRule(c, id, oi)
 	// no other writer of the two fields
 	for _, fname_ := range []string{"catchupSeqNo", "isCatchupNeed"} {
